@@ -109,4 +109,22 @@ def clustersWithinComponents (n : Nat) (A : Nat → Nat → Rat) (c : Nat → Na
   ((List.range n).all fun u => closedUnder n A (reach.getD u [])) &&
   (List.range n).all fun u => (List.range n).all fun v => c u != c v || (reach.getD u []).getD v false
 
+/-! ### the same clause with a certificate (graphs with hundreds of nodes: the reach sets above cost `n⁴`)
+
+The caller supplies a forest (`parent`, along links, towards a root) and the root of every cluster; the test follows the
+parents `n` times.  Sound for any certificate (`Lemmas/ModularityConn.lean`); a wrong certificate can only make it fail. -/
+
+def rootOf (parent : Nat → Nat) : Nat → Nat → Nat
+  | 0, u => u
+  | k+1, u => rootOf parent k (parent u)
+
+/-- every parent is a node, and is the node itself or one of its links -/
+def forestOK (n : Nat) (A : Nat → Nat → Rat) (parent : Nat → Nat) : Bool :=
+  (List.range n).all fun u => decide (parent u < n) && (parent u == u || linked A u (parent u))
+
+/-- every node reaches, along its parents, the root recorded for its cluster -/
+def clustersWithinForest (n : Nat) (A : Nat → Nat → Rat) (c : Nat → Nat) (parent : Nat → Nat) (croot : Nat → Nat) :
+    Bool :=
+  forestOK n A parent && (List.range n).all fun u => rootOf parent n u == croot (c u)
+
 end SkNet.Modularity
